@@ -290,6 +290,8 @@ class ClassParser(BaseParser):
                 )
 
             if field.attname not in _obj_self.__dict__:
+                if context.options.ignore_delete_nonexistent:
+                    return
                 raise exc.DeleteError(
                     f"{self.name}: Attempt to delete nonexistent key: {repr(field.attname)}"
                 )
